@@ -1500,11 +1500,12 @@ fn main() {
                 let mut x = good.clone();
                 x.checkpoint.state_hash = flip(&x.checkpoint.state_hash);
                 cp_alts.push(("cp-hash".into(), x));
-                for d in [1i64, -1] {
-                    let t2 = c as i64 + d;
-                    if t2 >= 0 {
+                // relabelled to every other tick of the history (0 included: a state that returned to the genesis graph
+                // passes every root comparison there) and one past the end
+                for t2 in 0..=(n as u64 + 1) {
+                    if t2 != c {
                         let mut x = good.clone();
-                        x.checkpoint.worldline_tick = wt(t2 as u64);
+                        x.checkpoint.worldline_tick = wt(t2);
                         cp_alts.push(("cp-tick".into(), x));
                     }
                 }
@@ -1554,7 +1555,30 @@ fn main() {
                     // the same altered checkpoint served at rest by the store view (no add_checkpoint validation)
                     let cps = vec![cp.clone()];
                     let view = View { inner: &world.provenance, wl: wid, hist: &entries, cps: Some(&cps) };
-                    for t in label..=n as u64 {
+                    // rewinding cursors: positioned on the clean store at a later tick, then sent back through the view
+                    // (seek_to restores from the checkpoint / U0 when target < tick; a fresh cursor at 0 never does)
+                    for start in [n as u64, c.min(n as u64)] {
+                        for t in 0..start {
+                            let mut cur = fresh_cursor(&world, w);
+                            if cur.seek_to(wt(start), &world.provenance, &base_state).is_err() {
+                                continue;
+                            }
+                            if let Ok(Ok(())) = catch(std::panic::AssertUnwindSafe(|| cur.seek_to(wt(t), &view, &base_state))) {
+                                let st = cur.materialized_state();
+                                let mut core = Core::of(st, cur.current_tick().as_u64(), &mut intern);
+                                if st.current_tick().as_u64() != core.tick {
+                                    core.tick = 1_000_000 + st.current_tick().as_u64();
+                                }
+                                if core != orig[t as usize] {
+                                    flags.push(sig("rewind-at-rest", &cname, "accepted-different-result"));
+                                    if !quiet {
+                                        println!("V id={id} w={w} cp={cname}@{c}>{label} rewind {start}->{t} got={} want={}", core.render(), orig[t as usize].render());
+                                    }
+                                }
+                            }
+                        }
+                    }
+                    for t in label.min(n as u64 + 1)..=n as u64 {
                         let res = seek_core(&world, w, &view, t, &mut intern);
                         if res.as_ref().err().is_some_and(|e| e == "PANIC") {
                             flags.push(sig("restore-at-rest", &cname, "panic"));
